@@ -281,6 +281,33 @@ Example ex_anova_snr :
   /\ this (Partitioned.ss_between [[q 1; q 3]; [q 5; q 7]]) = this (Partitioned.ss_between [[q 0; q 4]; [q 4; q 8]]).
 Proof. vm_compute. repeat split; reflexivity. Qed.
 
+(* the hypotheses of anova_snr_monotone are met by these two partitions *)
+Example ex_anova_snr_hypotheses :
+  let gs := [[q 1; q 3]; [q 5; q 7]] in let gs' := [[q 0; q 4]; [q 4; q 8]] in
+  qlen gs = qlen gs' /\ qlen (concat gs) = qlen (concat gs') /\ 0 < qlen gs - 1 /\ 0 < qlen (concat gs) - qlen gs
+  /\ Partitioned.ss_between gs = Partitioned.ss_between gs' /\ Partitioned.ss_within gs <= Partitioned.ss_within gs'
+  /\ Partitioned.snr_signal gs = Partitioned.snr_signal gs' /\ Partitioned.snr_noise gs <= Partitioned.snr_noise gs'.
+Proof. cbv zeta. repeat split; try (apply Qc_is_canon; vm_compute; reflexivity); try (vm_compute; reflexivity); vm_compute; discriminate. Qed.
+
+(* the hypotheses of dpa_true_key_maximal (1) and of nicv_true_key_maximal (2) are met *)
+Example ex_dpa_hypotheses :
+  let l := [(q 4, true); (q 1, false); (q 4, true); (q 1, false)] in
+  (forall p, In p l -> fst p = if snd p then q 4 else q 1) /\ (exists p, In p l /\ snd p = true) /\ (exists p, In p l /\ snd p = false).
+Proof.
+  cbv zeta. split; [|split].
+  - intros p [<-|[<-|[<-|[<-|[]]]]]; reflexivity.
+  - exists (q 4, true). split; [left; reflexivity|reflexivity].
+  - exists (q 1, false). split; [right; left; reflexivity|reflexivity].
+Qed.
+Example ex_nicv_hypotheses :
+  let gs := [[q 1; q 1]; [q 3; q 3; q 3]] in
+  Forall (fun g => g <> []) gs /\ (forall g, In g gs -> constant g) /\ ~ constant (concat gs).
+Proof.
+  cbv zeta. split; [repeat constructor; discriminate|]. split.
+  - intros g [<-|[<-|[]]] a b Ha Hb; cbn in Ha, Hb; intuition congruence.
+  - intros H. specialize (H (q 1) (q 3)). cbn in H. assert (E : q 1 = q 3) by (apply H; tauto). discriminate.
+Qed.
+
 (* the certificate on a miniature campaign: 6 traces x 2 samples, one word leaking at sample 0 (gain 1, noise-free there,
    noise in [-1, 1] at sample 1), 4 evaluated guesses (positions 5, 9, 17, 200; expected key 5), CPA / maxabs and NICV /
    nanmax with the float32 scores a correct implementation returns.  The model separates (leader = position 0 of the subset =
